@@ -10,7 +10,7 @@ P1 after every delivery the reader's error state is checked and returned.
 """
 import re
 from ..intervals import Intervals, Env, path_of, INF, TOP, hull
-from ..cfg import Facts, kids, strip, walk, cv, render, short_loc, call_args, TRANSPARENT
+from ..cfg import reach_calls, norm_facts, xrender, expand_locals, Facts, kids, strip, walk, cv, render, short_loc, call_args, TRANSPARENT
 from ..facts import export_many, AnalysisBroken
 from ..absexec import int_type, type_range
 from .. import units
@@ -268,15 +268,16 @@ def run(rep, ctx):
         g1.check(ok, "ReadSOLFile|VecReader(%s)#%d" % (var, cord[var]), short_loc(n.get("l")),
                  "count `%s`: %s" % (var, why), "count `%s`: %s" % (var, why))
     for g_ in (gsr, bsr):
-        sr = [n for n in g_.walk() if n["k"] in ("CXXConstructExpr", "CXXTemporaryObjectExpr") and
-              "SuffixReader" in n.get("callee", "")]
+        # suffix readers constructed by the function itself or by a delivery helper it calls
+        sr = [(a_, c_) for a_, c_, r_, o_ in reach_calls(F, g_, lambda n: n["k"] in ("CXXConstructExpr", "CXXTemporaryObjectExpr") and
+                                                          "SuffixReader" in n.get("callee", "") and "SuffixReader" in (n.get("t") or n.get("callee", "")), depth=1)]
         chk = [n for n in g_.walk() if n["k"] == "CXXMemberCallExpr" and n.get("callee", "").endswith("::sufheadcheck")]
-        for n in sr:
+        for n, built in sr:
             ok = bool(chk) and all(g_.cfg.dominates(chk[0], n) for _ in [0]) and any(
                 pol is False and any(x["i"] == chk[0]["i"] for x in walk(g_.nodes[cid]))
                 for cid, pol in g_.cfg.facts_at(n))
-            ordk = "%s|SuffixReader|%s" % (g_.name, n.get("t", "")[-12:])
-            g1.check(ok, ordk, short_loc(n.get("l")),
+            ordk = "%s|SuffixReader|%s" % (g_.name, built.get("t", "")[-12:])
+            g1.check(ok, ordk, short_loc(built.get("l")),
                      "%s: suffix reader built only on the path where sufheadcheck(&SR) returned 0" % g_.name)
 
     # ---- P1 ---------------------------------------------------------------------------
@@ -371,35 +372,56 @@ def run(rep, ctx):
     p1 = rep.rule("C14.P1", "PATH",
                   "after each handler call that received a reader, CheckReader is evaluated and its "
                   "failure returns the error code; ReadNext zeroes its counter on failure", floor=6)
+    def failure_returns(g, call):
+        """the boolean result of `call` is tested and its false edge returns"""
+        blk = [b for b in g.cfg.blocks.values() if b.get("cond") is not None and
+               any(x["i"] == call["i"] for x in walk(g.nodes[b["cond"]]))]
+        for b in blk:
+            c = strip(g.nodes[b["cond"]])
+            neg = c["k"] == "UnaryOperator" and c.get("op") == "!"
+            succ = g.cfg.succ[b["id"]]
+            fail_succ = succ[0] if neg else succ[1]
+            els = [g.nodes.get(e) for e in g.cfg.blocks[fail_succ]["el"]]
+            if any(e is not None and e["k"] == "ReturnStmt" for e in els):
+                return True
+        return False
+    HANDLERS = ("OnDualSolution", "OnPrimalSolution", "OnIntSuffix", "OnDblSuffix")
+    # delivery helpers: member functions called by the three readers that hand a reader to the handler themselves
+    helpers = {}
     for g_ in (rsf, gsr, bsr):
+        for c in g_.walk():
+            if c["k"] == "CXXMemberCallExpr":
+                h_ = F.by_id.get(c.get("calleeId"))
+                if h_ is not None and h_ not in (rsf, gsr, bsr) and h_.cfg is not None and h_.qn.startswith(SR2.replace("\\", "")) and \
+                        any(x["k"] == "CXXMemberCallExpr" and x.get("callee", "").split("::")[-1] in HANDLERS for x in h_.walk()):
+                    helpers.setdefault(h_.id, (h_, []))[1].append((g_, c))
+    for g_ in (rsf, gsr, bsr) + tuple(h for h, _ in helpers.values()):
         ordn = {}
+        is_helper = g_.id in helpers
         for n in g_.walk():
             if n["k"] != "CXXMemberCallExpr":
                 continue
             last = n.get("callee", "").split("::")[-1]
-            if last not in ("OnDualSolution", "OnPrimalSolution", "OnIntSuffix", "OnDblSuffix"):
+            if last not in HANDLERS:
                 continue
             rd = strip(call_args(n)[0])
             rid = rd.get("declId")
             checks = [c for c in g_.walk() if c["k"] == "CXXMemberCallExpr" and c.get("callee", "").endswith("::CheckReader")
                       and strip(call_args(c)[0]).get("declId") == rid]
             ordn[last] = ordn.get(last, 0) + 1
-            key = "%s|%s#%d" % (g_.name, last, ordn[last])
+            owner_names = [g_.name] if not is_helper else sorted({cg.name for cg, _ in helpers[g_.id][1]})
             ok = len(checks) == 1 and g_.cfg.postdominates(checks[0], n)
-            if ok:
-                # false result => return
-                blk = [b for b in g_.cfg.blocks.values() if b.get("cond") is not None and
-                       any(x["i"] == checks[0]["i"] for x in walk(g_.nodes[b["cond"]]))]
-                ok = False
-                for b in blk:
-                    c = strip(g_.nodes[b["cond"]])
-                    neg = c["k"] == "UnaryOperator" and c.get("op") == "!"
-                    succ = g_.cfg.succ[b["id"]]
-                    fail_succ = succ[0] if neg else succ[1]
-                    els = [g_.nodes.get(e) for e in g_.cfg.blocks[fail_succ]["el"]]
-                    ok = any(e is not None and e["k"] == "ReturnStmt" for e in els)
-            p1.check(ok, key, short_loc(n.get("l")),
-                     "%s: %s(reader) is followed by CheckReader(reader, ...) whose failure returns" % (g_.name, last))
+            if ok and not is_helper:
+                ok = failure_returns(g_, checks[0])
+            elif ok:
+                # the helper returns the verdict; every caller must test it and return on failure
+                ret_ = [r_ for r_ in g_.walk() if r_["k"] == "ReturnStmt" and any(x["i"] == checks[0]["i"] for x in walk(r_))]
+                ok = len(ret_) == 1 and strip(kids(ret_[0])[0])["i"] == checks[0]["i"] and \
+                    all(failure_returns(cg, cc) for cg, cc in helpers[g_.id][1])
+            for on_ in owner_names:
+                key = "%s|%s#%d" % (on_, last, ordn[last])
+                p1.check(ok, key, short_loc(n.get("l")),
+                         "%s: %s(reader) is followed by CheckReader(reader, ...) whose failure returns" % (on_, last))
     rn = [f for f in funcs if f.qn == "mp::VecReader::ReadNext"]
     seen2 = set()
     for f in rn:
